@@ -79,6 +79,24 @@ class Engine(BaseEngine):
             size = fl_size(f)
             for ol in rng.sample(outlens(rng, size, tier), 3):
                 out.append(("filter", "ctor_filter %s %s %s" % (C.t_filter(f), C.tn(ol), C.tn(rng.choice(fills)))))
+        # the JSON constructors on tag arrays whose binary section straddles 65535 bytes in different ways: one long string,
+        # the LAST tag crossing the limit while it starts below it, several strings each below 65536, many small tags
+        def jtags(ts):
+            return (b"[" + b",".join(b"[" + b",".join(b'"' + x + b'"' for x in t) + b"]" for t in ts) + b"]")
+        shapes = [[[b"r", b"a" * 65536]], [[b"r", b"a" * 65523]], [[b"r", b"a" * 65522]], [[b"r", b"a" * 65524]],
+                  [[b"a", b"x" * 40000], [b"b", b"y" * 30000]], [[b"a", b"x" * 40000], [b"b", b"y" * 25000]],
+                  [[b"a", b"x" * 65000], [b"b", b"y" * 600]], [[b"a", b"x" * 65000], [b"b", b"y" * 400]],
+                  [[b"k", b"v" * 50] for _ in range(1100)], [[b"k", b"v" * 50] for _ in range(1000)],
+                  [[b"a", b"x" * 30000, b"y" * 30000, b"z" * 6000]], [[b"a", b"x" * 30000, b"y" * 30000, b"z" * 5000]]]
+        for ts in shapes:
+            cls = "json-fits" if tags_size(ts) <= 65535 else "json-oversize"
+            if len(ts) > 100:
+                cls += "+"          # many small tags: implementation and oracle only (the list-based model needs minutes)
+            t = jtags(ts)
+            out.append((cls, "tagsjson %s n:80000 n:%d" % (C.tb(t), rng.choice(fills))))
+            ev = (b'{"id":"' + b"11" * 32 + b'","pubkey":"' + b"22" * 32 + b'","created_at":1,"kind":1,"tags":' + t
+                  + b',"content":"c","sig":"' + b"33" * 64 + b'"}')
+            out.append((cls, "evjson %s n:80000 n:%d" % (C.tb(ev), rng.choice(fills))))
         for nk in (65535, 65536):
             f = {"ids": [], "authors": [], "kinds": [7] * nk, "tags": [], "since": None, "until": None, "limit": None}
             out.append(("filter-big", "ctor_filter %s %s n:170" % (C.t_filter(f), C.tn(fl_size(f) + 1))))
@@ -90,12 +108,36 @@ class Engine(BaseEngine):
                     out.append(("filter-big", "ctor_filter %s %s n:170" % (C.t_filter(f), C.tn(fl_size(f)))))
         return out
 
+    def skip_model(self, gcls):
+        return gcls.endswith("+")
+
     def judge(self, gcls, line, model_out, impl_outs):
         o = impl_outs["debug"]
         i = C.kv(o)
         m = C.kv(model_out)
         toks = line.split(" ")
         cmd = toks[0]
+        if gcls.startswith("json-"):
+            if o.startswith("PROCESS") or o.endswith("impl=panic") or "r" not in i:
+                return Verdict(oracle_ok=False, cls="ctor-panics", detail="%s panicked or died: %s" % (cmd, o[:60]), outcome="panic")
+            if i.get("guard") == "false":
+                return Verdict(oracle_ok=False, cls="write-outside-buffer", detail="guard bytes modified", outcome="guard")
+            rcls = i["r"].split(" ")[0].split(":")[0]
+            if gcls.startswith("json-oversize") and rcls == "ok":
+                return Verdict(oracle_ok=False, cls="oversize-not-refused", detail="%s accepted a tag section larger than 65535 bytes" % cmd, outcome=rcls)
+            if gcls.startswith("json-fits") and rcls != "ok":
+                return Verdict(oracle_ok=False, cls="ctor-refuses-valid", detail="%s refused a tag section that fits: %s" % (cmd, i["r"][:40]), outcome=rcls)
+            if rcls == "ok" and (i.get("acc") == "panic" or i.get("json") == "panic"):
+                return Verdict(oracle_ok=False, cls="accessor-unfaithful", detail="accessors panic on the accepted value", outcome="acc")
+            if model_out == "noop":
+                return Verdict(outcome="%s/%s" % (rcls, gcls), nontrivial=True)
+            mr = m.get("r", "?").split(" ")[0].split(":")[0]
+            if mr != rcls:
+                return Verdict(corr_ok=False, cls="ctor-outcome", detail="model %s impl %s" % (m.get("r", "?")[:30], i["r"][:30]), outcome=rcls)
+            for k in ("ev", "tags", "consumed"):
+                if rcls == "ok" and k in i and k in m and i[k] != m[k]:
+                    return Verdict(corr_ok=False, cls="ctor-bytes", detail="%s differs from the model" % k, outcome=rcls)
+            return Verdict(outcome="%s/%s" % (rcls, gcls), nontrivial=True)
         outlen, fill = int(toks[-2][2:]), int(toks[-1][2:])
         body = " ".join(toks[1:-2])
         if o.endswith("impl=panic") or "r" not in i:
